@@ -76,6 +76,27 @@ pub fn run(args: &[String]) {
   // user expression crystals: lines `expr <id> <json>` on stdin (written by props/c01.py from the translated formulas)
   let mut input = String::new();
   let _ = std::io::Read::read_to_string(&mut std::io::stdin(), &mut input);
+  // replay points: lines `point <id> <wavelength_m> <temperature_c>` (decimal or 0x-bit-pattern floats)
+  let parse_f = |t: &str| -> Option<f64> {
+    if let Some(h) = t.strip_prefix("0x") {
+      u64::from_str_radix(h, 16).ok().map(f64::from_bits)
+    } else {
+      t.parse::<f64>().ok()
+    }
+  };
+  for line in input.lines() {
+    let toks: Vec<&str> = line.split_whitespace().collect();
+    if toks.len() == 4 && toks[0] == "point" {
+      if let (Ok(c), Some(l), Some(t_c)) = (CrystalType::from_string(toks[1]), parse_f(toks[2]), parse_f(toks[3])) {
+        let t_k = utils::from_celsius_to_kelvin(t_c);
+        let v = *c.get_indices(l * M, t_k);
+        emit(json!({
+          "kind": "idx", "id": toks[1], "w": fx(l), "tk": fx(*(t_k / K)), "tc": fx(t_c),
+          "n": [fx(v.x), fx(v.y), fx(v.z)], "replay": true,
+        }));
+      }
+    }
+  }
   for line in input.lines() {
     let mut it = line.splitn(3, ' ');
     if it.next() != Some("expr") {
